@@ -142,6 +142,46 @@ func (c *Ctx) serveModel() (*serveModel, string) {
 			lastIf = iff
 		}
 	}
+	// a dispatch nested in an arm of the outer dispatch (`case A, B, C: return c.serveAck(…)` with its own switch inside): the
+	// inner arm for the value that selected the outer arm is the arm; inner arms for other values cannot be reached; the
+	// "no arm matched" edge is that of the outer dispatch
+	nestedIn := func(a *serveArm) *serveArm {
+		for _, o := range m.Arms {
+			if o != a && o.Entry != a.Entry && o.Entry.Dominates(a.From.B) {
+				return o
+			}
+		}
+		return nil
+	}
+	var kept []*serveArm
+	lastIf = nil
+	for _, a := range m.Arms {
+		outer := nestedIn(a)
+		if outer == nil {
+			if iff := blockIf(a.From.B); iff != nil && (lastIf == nil || dominatesBlock(lastIf.Block(), a.From.B)) {
+				lastIf = iff
+			}
+			// replaced by an inner arm of the same value?
+			replaced := false
+			for _, in := range m.Arms {
+				if in != a && in.K == a.K && in.Entry != a.Entry && a.Entry.Dominates(in.From.B) {
+					replaced = true
+				}
+			}
+			if !replaced {
+				kept = append(kept, a)
+			}
+			continue
+		}
+		// inner arm: kept when some outer arm entering the same body has its value
+		for _, o := range m.Arms {
+			if o != a && o.K == a.K && o.Entry != a.Entry && o.Entry.Dominates(a.From.B) && nestedIn(o) == nil {
+				kept = append(kept, a)
+				break
+			}
+		}
+	}
+	m.Arms = kept
 	if lastIf != nil {
 		m.Default = lastIf.Block().Succs[1]
 		m.DefEdge = ifEdge{lastIf.Block(), 1}
